@@ -245,12 +245,18 @@ class Parser:
             _, end = sub.parse(con.subcon, Sym(e0, int), ctx, path + ("[k]",), ())
         size = z3.simplify(as_int_term(end) - e0)
         if not z3.is_int_value(size):
-            raise Unsupported("array element of non-constant size")
-        esize = size.as_long()
+            hint = getattr(it, "elem_size_hint", None)
+            with IndexContext(it, k, 0, n):
+                ok = hint is not None and it.path.entails(size == hint)
+            if not ok:
+                raise Unsupported("array element of non-constant size")
+            esize = hint  # every element has the same (symbolic) size, e.g. the declared record length
+        else:
+            esize = size.as_long()
         total = mk_int(n * esize)
         self.need(pos, total, ".".join(map(str, path)))
         if self.record_leaves:
-            self.note_leaf(Leaf(path, pos, total, f"array[{esize}]", (("count", cnt),), self.file_off(pos), None))
+            self.note_leaf(Leaf(path, pos, total, f"array[{esize if is_concrete_int(esize) else 'R'}]", (("count", cnt),), self.file_off(pos), None))
         outer = self
 
         def elem(i):
